@@ -104,6 +104,44 @@ def twin_verbs():
     return out
 
 
+def same_user():
+    """Two (three) sessions of one account, each in its own working directory, sending the same relative arguments turn by turn -
+    plainly, and with the first one's backend call held while the other's whole command runs."""
+    out = []
+    homes = {1: "d", 2: None, 3: "d/e"}
+    cmds = ["MLST g", "MLST f", "CWD .", "PWD", "MKD zz", "MLST zz", "RNFR g", "RNTO g2", "DELE f", "MLST f", "CDUP", "PWD", "MLST e"]
+    for sess in ((1, 2), (2, 1), (1, 3), (1, 2, 3)):
+        st = []
+        for s in sess:
+            st += [["connect", s], ["send", s, "USER u1"], ["send", s, "PASS pw1"]] + ([["send", s, "CWD " + homes[s]]] if homes[s] else [])
+        plain = list(st)
+        for c in cmds:
+            for s in sess:
+                plain.append(["send", s, c])
+        out.append(plain)
+        for j in (1, 2):
+            held = list(st)
+            a, b = sess[0], sess[1]
+            for c in cmds:
+                if c.split()[0] in ("MLST", "CWD", "MKD", "DELE", "RNFR", "RNTO", "CDUP"):
+                    held += [["gate", a, None, j], ["send", a, c], ["send", b, c], ["release", a]]
+                else:
+                    held += [["send", a, c], ["send", b, c]]
+            out.append(held)
+        # transfers: the same relative name, different bytes
+        xs = list(st)
+        for s in sess:
+            xs += gen.transfer(s, "STOR", "n", data=[50 + s, 60 + s])
+        for s in sess:
+            xs += gen.transfer(s, "RETR", "n")
+        for s in sess:
+            xs += gen.transfer(s, "APPE", "n", data=[70 + s])
+        for s in reversed(sess):
+            xs += gen.transfer(s, "RETR", "n") + [["send", s, "MLST n"]]
+        out.append(xs)
+    return out
+
+
 def dev_cfg(pool):
     return gen.std_cfg(ns=3)
 
@@ -140,6 +178,9 @@ def run(tier, seed):
                           {"cfg": cfg, "tree": gen.STD_TREE, "schedule": fam[i][1][2], "solo": fam[i][1][0][s]})
     tv = twin_verbs()
     corecheck.validate(chk, cfg, gen.STD_TREE, tv, label="twin-verbs")
+    su = same_user()
+    corecheck.validate(chk, cfg, gen.STD_TREE, su, label="same-user")
+    corecheck.validate(chk, gen.std_cfg(ns=3, backend="async"), gen.STD_TREE, su, label="same-user:async")
     lk = lookers()
     corecheck.validate(chk, cfg, gen.STD_TREE, lk, label="lookers")
     if tier != "quick":
